@@ -1,6 +1,7 @@
 package props
 
 import (
+	"math"
 	"encoding/json"
 	"fmt"
 	"html"
@@ -424,7 +425,7 @@ func (x *c16) nonStringReceivers() {
 
 // numberReceivers: a number given as receiver acts as the text it prints as, whatever its Go width.
 func (x *c16) numberReceivers() {
-	vals := []any{float32(0.1), float32(2.7), float32(-0.3), float32(1e-3), 0.1, 2.7, 1e21, 1e-7, float32(16777217), int8(-7), uint64(1 << 63), int64(-1 << 62), uint8(200), 3.0, float32(4), -0.5}
+	vals := []any{float32(0.1), float32(2.7), float32(-0.3), float32(1e-3), 0.1, 2.7, 1e21, 1e-7, float32(16777217), int8(-7), uint64(1 << 63), int64(-1 << 62), uint8(200), 3.0, float32(4), -0.5, true, false, 1234567.0, float32(2e6), math.Copysign(0, -1), 12, gen.NInt(-40), gen.NBool(true), gen.NFloat(2.5)}
 	for _, v := range vals {
 		printed := core.Run(x.e, "{{ v }}", map[string]any{"v": v})
 		x.c.Eval(1)
@@ -434,7 +435,7 @@ func (x *c16) numberReceivers() {
 		p := printed.Out
 		x.expect("append", "a number receiver acts as the text it prints as", v, p+"!", "!")
 		x.expect("prepend", "a number receiver acts as the text it prints as", v, "!"+p, "!")
-		x.expect("size", "a number receiver acts as the text it prints as (append then size)", p, fmt.Sprint(len([]rune(p))))
+		x.expect("size", "a number receiver acts as the text it prints as", v, fmt.Sprint(len([]rune(p))))
 		x.expect("upcase", "a number receiver acts as the text it prints as", v, strings.ToUpper(p))
 		x.expect("replace", "a number receiver acts as the text it prints as", v, strings.ReplaceAll(p, "0", "o"), "0", "o")
 		x.expect("slice", "a number receiver acts as the text it prints as", v, firstRune(p), 0)
